@@ -60,7 +60,7 @@ PROPS.update({
 })
 # scenarios whose programs / behaviours are generated by TLC from a machine of the specification (GEN -> replay -> TV)
 # scenario -> (fuzz target, seconds per tier)
-DISCOVER = {"discovered": ("qrbuild", {"quick": 25, "thorough": 300}), "svgdiscovered": ("svgimage", {"quick": 15, "thorough": 120})}
+DISCOVER = {"discovered": ("qrbuild", {"quick": 25, "thorough": 300}), "candidates": ("qrbuild", {"quick": 25, "thorough": 300}), "svgdiscovered": ("svgimage", {"quick": 15, "thorough": 120})}
 GEN = {"fileio": ("FileIO.tla", "MC_FileIO.cfg", False), "wasm": ("MC_Wasm.tla", "MC_Wasm_{tier}.cfg", True),
        "fileconc": ("FileIO2.tla", "MC_FileIO2.cfg", False),
        "histories": ("MC_Builder.tla", "MC_Builder_{variant}_{tier}.cfg", False),
@@ -292,16 +292,20 @@ def run_property(pid, tier, seed, replay=None, spec=None):
             extra += ["--mapping", "rejected"]
         if scen in DISCOVER:      # coverage-guided input discovery: the fuzzer proposes inputs, the harness builds them, TLC judges them
             target, secs = DISCOVER[scen]
+            corpus = None
             try:
                 corpus = runner.discover(target, secs[tier], seed)
             except ToolError as e:
-                if required:
-                    raise
-                notes.append(f"input discovery unavailable, scenario '{scen}' skipped: {str(e)[:300]}")
-                log(f"[skip] {scen}: the fuzz target did not build or run; the other scenarios decide")
-                continue
-            extra += ["--corpus", corpus]
-            gen_counts[scen] = len(os.listdir(corpus))
+                if scen in ("discovered", "svgdiscovered"):       # scenarios that consist of discovered inputs only
+                    if required:
+                        raise
+                    notes.append(f"input discovery unavailable, scenario '{scen}' skipped: {str(e)[:300]}")
+                    log(f"[skip] {scen}: the fuzz target did not build or run; the other scenarios decide")
+                    continue
+                notes.append(f"input discovery unavailable, scenario '{scen}' runs with its own generators only: {str(e)[:300]}")
+            if corpus:
+                extra += ["--corpus", corpus]
+                gen_counts["discovered:" + scen] = len(os.listdir(corpus))
         if scen in GEN:
             mod, cfg, alpha = GEN[scen]
             cfg = cfg.format(tier=tier, variant=variant)
